@@ -1,8 +1,8 @@
 package chainlab
 
 import (
-	"errors"
 	"encoding/json"
+	"errors"
 	"fmt"
 
 	"go.sia.tech/core/consensus"
